@@ -72,7 +72,7 @@ func c10History(c *rt.Ctx, fsType string, h int) {
 		_ = ref.MkdirAll("/w", 0o755)
 		g := gen.New(tcfg, rand.New(rand.NewPCG(sa, sb)))
 		for i := 0; i < 25; i++ {
-			s := fsx.Snap(ref, "/", fsx.SnapOpts{})
+			s := fsx.Snap(ref, "/", fsx.SnapOpts{SentMtime: true})
 			g.Observe(s.Recs, "/")
 			o := g.Next()
 			if o.K == "Chdir" || strings.HasPrefix(o.K, "F.") || o.K == "OpenFile" || o.K == "Create" || o.K == "CreateTemp" || o.K == "MkdirTemp" || !strings.HasPrefix(o.P, "/") ||
@@ -102,7 +102,7 @@ func c10History(c *rt.Ctx, fsType string, h int) {
 		return
 	}
 	insideSnap := func() *fsx.Snapshot {
-		s := fsx.Snap(base, B, fsx.SnapOpts{})
+		s := fsx.Snap(base, B, fsx.SnapOpts{SentMtime: true})
 		for i := range s.Recs {
 			p := strings.TrimPrefix(s.Recs[i].Path, B)
 			if p == "" {
@@ -118,8 +118,8 @@ func c10History(c *rt.Ctx, fsType string, h int) {
 	outside := func() string {
 		return fsx.Snap(base, "/", fsx.SnapOpts{Mtime: true, Skip: []string{B}}).String()
 	}
-	if a, b := insideSnap().String(), fsx.Snap(ref, "/", fsx.SnapOpts{}).String(); a != b {
-		c.Rep.Inconclusive = append(c.Rep.Inconclusive, "set-up trees differ (harness): "+fmt.Sprint(fsx.Diff(insideSnap(), fsx.Snap(ref, "/", fsx.SnapOpts{}), false, 4)))
+	if a, b := insideSnap().String(), fsx.Snap(ref, "/", fsx.SnapOpts{SentMtime: true}).String(); a != b {
+		c.Rep.Inconclusive = append(c.Rep.Inconclusive, "set-up trees differ (harness): "+fmt.Sprint(fsx.Diff(insideSnap(), fsx.Snap(ref, "/", fsx.SnapOpts{SentMtime: true}), false, 4)))
 		return
 	}
 	gcfg := gen.Cfg{Root: "/w", Names: []string{"a", "b", "c"}, Depth: 3, NoChange: true, Links: true, Owners: true, Chdir: true, Specials: true, EmptyPath: false, Unclean: true, AvoidRootOps: true, Handles: true, Temps: true, Walk: true}
@@ -163,13 +163,13 @@ func c10History(c *rt.Ctx, fsType string, h int) {
 			}
 			_ = base.Remove(B + lk) // whatever was created is taken away again from the base side
 		}
-		if a, b := insideSnap().String(), fsx.Snap(ref, "/", fsx.SnapOpts{}).String(); a != b {
+		if a, b := insideSnap().String(), fsx.Snap(ref, "/", fsx.SnapOpts{SentMtime: true}).String(); a != b {
 			c.Disagree(fsType+"|flagged-symlink|inside-changed", fmt.Sprintf("BasePathFS(%s,%s) told it has symbolic links: the calls through links changed the content of the base directory: %v", fsType, B, diffText(b, a)), replay())
 			return
 		}
 	}
 	for i := 0; i < 100; i++ {
-		s := fsx.Snap(ref, "/", fsx.SnapOpts{})
+		s := fsx.Snap(ref, "/", fsx.SnapOpts{SentMtime: true})
 		cwd, _ := ref.Getwd()
 		g.Observe(s.Recs, cwd)
 		o := g.Next()
@@ -326,9 +326,9 @@ func c10History(c *rt.Ctx, fsType string, h int) {
 			c.Rep.Count("histories_ended_by_failed_removeall", 1)
 			return
 		}
-		sa, sb := insideSnap(), fsx.Snap(ref, "/", fsx.SnapOpts{})
+		sa, sb := insideSnap(), fsx.Snap(ref, "/", fsx.SnapOpts{SentMtime: true})
 		if sa.String() != sb.String() {
-			c.Disagree(fmt.Sprintf("%s|%s|effect-differs", fsType, o.K), fmt.Sprintf("BasePathFS(%s,%s): after %s the content of the base directory differs from the standalone file system: %v", fsType, B, o, fsx.Diff(sa, sb, false, 6)), replay())
+			c.Disagree(fmt.Sprintf("%s|%s|effect-differs", fsType, o.K), fmt.Sprintf("BasePathFS(%s,%s): after %s the content of the base directory differs from the standalone file system: %v", fsType, B, o, fsx.Diff(sa, sb, true, 6)), replay())
 			return
 		}
 		wa, wb := env.Exec(fsx.Op{K: "Getwd"}).String(), renv.Exec(fsx.Op{K: "Getwd"}).String()
@@ -348,7 +348,7 @@ func init() {
 		Shards: shards(8, 16),
 		Meta: func(tier string) rt.Meta {
 			return rt.Meta{Level: "exploration", MinEvals: 2000, MinDistinct: 20,
-				Rule:        "bases MemFS/OrefaFS with a base directory B (/BASE, /BASE/sub, /x/BASE, or /x/[ab] - a name made of pattern metacharacters, beside /x/a and /x/b holding the workload's names -, given to the constructor clean, with a trailing separator, unclean or relative) holding a random tree, canary files and directories outside B (among them a sibling directory whose name extends B's as a string and holds the workload's names; the current directory of the base is moved there and elsewhere outside B from the base side); histories of 100 calls (all path-taking calls incl. Glob patterns made from paths of the tree and WalkDir, and File methods; absolute, relative, unclean paths; one call in four gets an adversarial operand: '..'-chains, B's own prefix, canary names) plus Sub through the wrapper with hostile directories and probes through the returned view) issued in lockstep on BasePathFS(base,B) and on a standalone file system holding B's content. In one MemFS history in five the wrapper is told through SetFeatures that it has symbolic links, and links with targets outside B are asked for and used through it. Monitors: snapshot (incl. mtimes) of everything outside B before/after every call; canary/base-path search in every returned value and error text; outcome, content of B and cwd equal to the standalone reference. Signature = base fs | call kind | outcome; all non-trivial.",
+				Rule:        "bases MemFS/OrefaFS with a base directory B (/BASE, /BASE/sub, /x/BASE, or /x/[ab] - a name made of pattern metacharacters, beside /x/a and /x/b holding the workload's names -, given to the constructor clean, with a trailing separator, unclean or relative) holding a random tree, canary files and directories outside B (among them a sibling directory whose name extends B's as a string and holds the workload's names; the current directory of the base is moved there and elsewhere outside B from the base side); histories of 100 calls (all path-taking calls incl. Glob patterns made from paths of the tree and WalkDir, and File methods; absolute, relative, unclean paths; one call in four gets an adversarial operand: '..'-chains, B's own prefix, canary names) plus Sub through the wrapper with hostile directories and probes through the returned view) issued in lockstep on BasePathFS(base,B) and on a standalone file system holding B's content. In one MemFS history in five the wrapper is told through SetFeatures that it has symbolic links, and links with targets outside B are asked for and used through it. Monitors: snapshot (incl. mtimes) of everything outside B before/after every call; canary/base-path search in every returned value and error text; outcome, content of B and cwd equal to the standalone reference. Chtimes sets two different sentinel times (or only one of the two) and the sentinel modification times of the base directory are compared with the twin's. Signature = base fs | call kind | outcome; all non-trivial.",
 				Assumptions: []string{"B's content is symlink-free (BasePathFS removes FeatSymlink)", "File.Name and Abs are checked for leaks only", "the root as operand of Remove/RemoveAll/Rename is left to C07"}}
 		},
 		Run: func(c *rt.Ctx) {
